@@ -16,7 +16,8 @@ BOUNDED = {
          'the same corpus; ALL index lists in ascending and descending order plus two mixed ones; all seeds: orbit = reachable set, one representative per component, '
          'every i-edge of a traversed component exactly once, predicates = reachability / bipartiteness computed independently; r/v/m of both representations on every '
          '(i, j, d) including out-of-range values; 240 random PARTIAL D-sets (size <= 5, dimension <= 3, about a third of the entries undefined): orbit, orbit_reps, '
-         'is_connected, is_complete against reachability with an undefined operation as no edge'),
+         'is_connected, is_complete against reachability with an undefined operation as no edge; 600 random histories of PartialDSet::set (conflicting calls included): every ACCEPTED call leaves a partial involution; '
+         'is_complete of 300 PartialDSyms with a random subset of branching numbers assigned against its definition'),
  'C04': ('degrees of the minimal image, minimal images of covers, totality of morphisms; fold / is_minimal / minimal_image (quotient by the coarsest congruence) are ALSO decided deductively',
          'connected complete corpus symbols of size <= 5, their oriented covers, all covers with <= 4 sheets of six one- and two-chamber symbols: is_minimal / size of '
          'minimal_image against the coarsest degree-respecting congruence computed by partition refinement; a symbol maps onto its minimal image; covers and base have '
@@ -47,7 +48,7 @@ BOUNDED = {
          'dihedral group of order 260): core_table has as many rows as the group has elements and agrees on 5-11 long words, stabilizer generators fix base rows 0 and 257'),
  'C18': ('exact rank / determinant / solve of the machine-integer backend (matrix algebra over generic Entry: outside the contracts)',
          '600 random integer matrices of every shape up to 4x5 (rank against fraction-free elimination on i128) and 400 square ones up to 4x4 (determinant against Bareiss on i128, '
-         'solve returns true solutions), entries in -3..=3, fixed seed; the p-adic modular solver on 300 random systems (n <= 3, entries up to 10^9, large and tiny right-hand sides) and 960 near-orthogonal systems of orders 2 and 4 at 60 scales from 3 to 10^9 (solutions near the Hadamard bound): A x = b exactly; residues: 217 boundary and random integers for P in {2, 3, 61, 3037000493}'),
+         'solve returns true solutions), entries in -3..=3, fixed seed; ALL shapes 1..4 x 1..4 over Z/61 (40 matrices each, many zeros and repeated rows): rank against own elimination mod p, solve sound and complete (b = A x0 must get a solution), null_space_matrix has columns - rank independent columns annihilated by the matrix; the p-adic modular solver on 300 random systems (n <= 3, entries up to 10^9, large and tiny right-hand sides) and 960 near-orthogonal systems of orders 2 and 4 at 60 scales from 3 to 10^9 (solutions near the Hadamard bound): A x = b exactly; residues: 217 boundary and random integers for P in {2, 3, 61, 3037000493}'),
  'C20': ('(every clause is also decided deductively, at T = usize)', '1500 random mixed histories (unite / find / classes on random sub-multisets / clone) and 30000 union-heavy histories over <= 9 elements, '
          'both partitions, compared with a naive model; clones compared with the model at cloning time'),
 }
